@@ -6,7 +6,9 @@ open Golib.Proto
 
 /-- Entry point of the C13 section of the oracle: header tokens after `@ C13`. -/
 def runCase (hdr : List String) (ops : List String) : List String :=
-  match hdr with
+  -- `ty=<element type>`: which instantiation `DList[T]`/`SList[T]` the Go side runs; the model's
+  -- element type is abstract (values are carried, never inspected), so the token is ignored here
+  match hdr.filter (fun t => !t.startsWith "ty=") with
   | "dlist" :: rest => runDListCase rest ops
   | "slist" :: rest => runSListCase rest ops
   | _ => "bad-op" :: ops.map fun _ => "bad-op"
